@@ -7,6 +7,8 @@ run and merged by checks/fuzzutil.py.
 Oracle: the call returns or raises a documented exception class; PanicException,
 any other class, a walk that does not end, or process death is a violation.
 """
+import json
+import os
 import re
 
 from vlib import agent as ag
@@ -157,7 +159,12 @@ def run(rep, tier):
                 "distinct by (cfg, op, datagram). E3: libFuzzer+ASan campaigns on the real receive path and on the decoders.")
     rep.assumptions = ["loopback UDP delivery is synchronous (nb driver)", "reference codec/crypto build the seed replies"]
 
+    journal = os.environ.get("VERIF_JOURNAL")
+
     def body(c):
+        if journal:
+            with open(journal, "w") as fh:
+                json.dump({"property": "C01", "signature": "process-death", "case": core.jsonable(describe(c))}, fh)
         out, state = execute(G, c)
         sent = state["sent"] or b""
         nt = False
@@ -183,6 +190,10 @@ def run(rep, tier):
 
 
 def replay(rep, case, body=None):
+    if isinstance(case, dict) and case.get("engine") == "E3":
+        from checks import fuzzutil
+        fuzzutil.replay_input(rep, "C01", case)
+        return
     G = drivers.load()
     c = dict(case)
     c["cfg"] = gen.cfg_from_json(case["_cfg"])
